@@ -679,3 +679,42 @@ func (c Codec) DecodeStream(b []byte) (*StreamMsg, error) {
 	}
 	return m, nil
 }
+
+// FilterPacket decodes a packet, removes the leaves for which drop returns
+// true and re-encodes what is left (flat: a single message or one compound,
+// keeping the CRC header, the encryption envelope and the label). It returns
+// nil when nothing is left, and the input itself when nothing was dropped.
+func (c Codec) FilterPacket(b []byte, nonce []byte, drop func(Leaf) bool) []byte {
+	info, err := c.DecodePacket(b)
+	if err != nil {
+		return b
+	}
+	var keep [][]byte
+	dropped := false
+	for _, l := range info.Leaves {
+		if drop(l) {
+			dropped = true
+			continue
+		}
+		keep = append(keep, append([]byte{l.Type}, l.Body...))
+	}
+	if !dropped {
+		return b
+	}
+	if len(keep) == 0 {
+		return nil
+	}
+	var plain []byte
+	if len(keep) == 1 {
+		plain = keep[0]
+	} else {
+		plain = Compound(keep)
+	}
+	if info.CRC {
+		plain = CRCWrap(plain)
+	}
+	if info.Encrypted {
+		plain = Seal(info.EncVsn, c.Keys[0], nonce, plain, []byte(info.Label))
+	}
+	return LabelWrap(plain, info.Label)
+}
